@@ -117,6 +117,32 @@ def shallow_state():
     return st
 
 
+def module_globals_state():
+    """every module-level variable of every loaded hl7apy module that holds data (containers and plain values, not functions,
+    classes or modules): a call that leaves any of them different has written shared state, whatever its name"""
+    import sys, types
+    st = {}
+    for mn, mod in sorted(sys.modules.items()):
+        if mod is None or not (mn == 'hl7apy' or mn.startswith('hl7apy.')):
+            continue
+        for k, v in sorted(vars(mod).items()):
+            if k.startswith('__') or isinstance(v, (types.ModuleType, type, types.FunctionType, types.BuiltinFunctionType)) or callable(v):
+                continue
+            key = '%s.%s' % (mn, k)
+            if isinstance(v, (dict, list, set)):
+                if len(v) > 200:
+                    st[key] = (id(v), len(v))
+                else:
+                    def prim(x):
+                        # plain values by content, anything structured by identity (repr of a nested reference tuple is far too slow)
+                        return repr(x)[:120] if isinstance(x, (str, int, float, bool, type(None), bytes)) else id(x)
+                    items = [(prim(a), prim(b)) for a, b in v.items()] if isinstance(v, dict) else [prim(x) for x in v]
+                    st[key] = (id(v), hashlib.sha1(repr(sorted(map(repr, items))).encode()).hexdigest())
+            elif isinstance(v, (str, int, float, bool, type(None), tuple, frozenset, bytes)):
+                st[key] = repr(v)[:300] if not isinstance(v, tuple) else (id(v), len(v))
+    return st
+
+
 def run(tier, seed):
     import hl7apy
     chk = vlib.Check('C19', tier, seed)
@@ -130,8 +156,19 @@ def run(tier, seed):
         libs[v].BASE_DATATYPES = RecDict(orig[v])
     RecDict.log = []
     before = shallow_state()
-    seq = [call(c) for c in calls]
+    gbefore = module_globals_state()
+    seq = []
+    stepwise = []
+    g0 = gbefore
+    for i, c in enumerate(calls):
+        seq.append(call(c))
+        if i < 80:
+            # a memo that is rewritten and happens to end where it started is only visible call by call
+            g1 = module_globals_state()
+            stepwise += ['global %s (after call %d: %s)' % (k, i, str(c)[:80]) for k in g0 if k in g1 and g0[k] != g1[k] and not k.endswith('.BASE_DATATYPES')]
+            g0 = g1
     after = shallow_state()
+    gafter = module_globals_state()
     writes = list(RecDict.log)
     for v in VERSIONS:
         libs[v].BASE_DATATYPES = orig[v]
@@ -143,6 +180,9 @@ def run(tier, seed):
         chk.fail(None, {'clause': 'calls-write-no-shared-state', 'writes': writes[:10]},
                  {'api': 'call corpus under a recording BASE_DATATYPES', 'first_calls': [str(c)[:200] for c in calls[:5]]})
     changed = [k for k in before if before[k] != after[k] and not k.endswith('.BASE')]
+    changed += ['global ' + k for k in gbefore if k in gafter and gbefore[k] != gafter[k] and not k.endswith('.BASE_DATATYPES')]
+    changed += stepwise[:10]
+    chk.dist['write_monitor']['module_globals_compared'] = len(gbefore)
     if changed:
         chk.fail(None, {'clause': 'module-state-unchanged', 'changed': changed[:10]}, {'api': 'call corpus', 'changed': changed[:10]})
     # ---- (2) stress run (failing-input search, not proof): threads under a minimal switch interval
